@@ -4,7 +4,7 @@ from pyubx2 import UBXReader
 import impl
 import msggen
 
-PROPFILES = ["props/C02.v"]
+PROPFILES = ["props/C02.v", "props/C02_src.v"]
 RULE = ("every (mode, definition) of the GET/SET/POLL tables incl. every variant (payloads built to satisfy the variant's "
         "discriminator) x repeat counts {0,1,2,5,(thorough: 17, 255)} for counted / variable / nested groups x fills {zero, "
         "all-ones, random, boundary} x parsebitfield{0,1}; PARSE correspondence (ordered attribute lists, bit-exact values) "
@@ -45,6 +45,19 @@ def run(ctx):
                     f = msggen.frame(key, p)
                     cmds.append("PARSE %d 1 %d %s" % (mode, bf, f.hex()))
                     cases.append((mode, name, d, key, p, bf, f))
+    # variant sweep: every row of VARIANTS x every payload length around the lengths the selectors test x every
+    # discriminator byte value the selectors test (and neighbours): model and implementation must select alike
+    from pyubx2.ubxvariants import VARIANTS
+    nsweep = 0
+    for vmode in sorted(VARIANTS):
+        for vkey in sorted(VARIANTS[vmode]):
+            for ln in list(range(0, 42 if ctx.quick() else 300)):
+                for d0, d1 in ((0, 0), (1, 1), (2, 0xff), (0xff, 2), (rng.randrange(256), rng.randrange(256))):
+                    p = bytes([d0, d1][:ln]) + bytes(max(ln - 2, 0))
+                    cmds.append("PARSE %d 1 %d %s" % (vmode, nsweep % 2, msggen.frame(vkey, p).hex()))
+                    nsweep += 1
+    ctx.count("variant_sweep_parses", nsweep)
+    ctx.exhaustive_parts.append("every VARIANTS row x payload lengths 0..%d x 5 discriminator byte pairs" % (41 if ctx.quick() else 299))
     ctx.correspond(cmds, canon=lambda c, l: impl.canon_model_line(l), nontrivial=lambda c, o: o.startswith("OK"), label="PARSE")
     ctx.count("model_declined", len([d for d in ctx.disagreements if d["model"] == "RAISE Other"]))
     ctx.disagreements = [d for d in ctx.disagreements if d["model"] != "RAISE Other"]
